@@ -545,33 +545,46 @@ def dir1(ctx, c):
           c.check(good, "parse_line:FCC:closing", "closing delimiter = first occurrence after the opening one", "closing delimiter located by %s" % [U(x) for x in find_calls],
                 "the FCC branch finds the closing delimiter with %s; it is the first occurrence of the opening character after position 0 "
                 "(searching from the right turns comment text containing the delimiter into data)" % [U(x) for x in find_calls], repo.loc(pl, fcc))
-        # the text handed to the operand classes is exactly the delimited string: fold the slice for sample operand fields
-        from ..consteval import fold as _fold, NotConst as _NC
+        # the text handed to the operand classes is exactly the delimited string of the source line: the branch is folded on sample lines, with
+        # `data` bound to the match object of the module's own line pattern
+        from ..consteval import fold as _fold, fold_body as _fold_body, NotConst as _NC, Raised as _Rs
+        rx_line = ctx.env.get("ASM_LINE_REGEX")
         cfs = [n for n in ast.walk(fcc) if isinstance(n, ast.Call) and U(n.func) == "Operand.create_from_str" and n.args]
-        whole = [n for n in ast.walk(fcc) if isinstance(n, ast.Assign) and isinstance(n.targets[0], ast.Name) and re.fullmatch(r"\w+\.group\('operands'\)", U(n.value))]
-        if cfs and whole:
-            var = whole[0].targets[0].id
-            simple = [n for n in ast.walk(fcc) if isinstance(n, ast.Assign) and isinstance(n.targets[0], ast.Name) and n is not whole[0]
-                      and not any(isinstance(x, ast.Call) and "group" in U(x.func) for x in ast.walk(n.value)) and n.lineno < cfs[0].lineno]
-            bad = None
+        mvar = next((U(n.func.value) for n in ast.walk(fcc) if isinstance(n, ast.Call) and isinstance(n.func, ast.Attribute) and n.func.attr == "group"), None)
+        results = {}
+        if cfs and rx_line is not None and mvar:
+            pre = []
+            for st in fcc.body:
+                if any(x is cfs[0] for x in ast.walk(st)):
+                    break
+                pre.append(st)
             try:
-                for text, want in (("/AB/", "/AB/"), ("/AB/ rest", "/AB/"), ('"A B" c', '"A B"'), ("/AB/x", "/AB/"), ("'Q' 'R'", "'Q'")):
+                for line, want in ((' FCC /AB/', "/AB/"), (' FCC /AB/ rest', "/AB/"), (' FCC "ONE TWO THREE"', '"ONE TWO THREE"'), (' FCC "ONE TWO  THREE" c', '"ONE TWO  THREE"'),
+                                   (" FCC /AB/x", "/AB/"), (" FCC 'Q' 'R'", "'Q'"), (' FCC "A B\tC  D"', '"A B\tC  D"'), (' FCC "A  B"', '"A  B"')):
+                    m_ = rx_line.match(line + "\n")
+                    if m_ is None:
+                        continue
                     envf = dict(ctx.env)
-                    envf[var] = text
-                    for a_ in sorted(simple, key=lambda n: n.lineno):
-                        envf[a_.targets[0].id] = _fold(a_.value, envf)
-                    got = _fold(cfs[0].args[0], envf)
-                    if got != want:
-                        bad = (text, got, want)
-                        break
+                    envf[mvar] = m_
+                    envf["line"] = line + "\n"
+                    final = {}
+                    try:
+                        _fold_body(pre, envf, final=final)
+                        results[line] = (_fold(cfs[0].args[0], final), want)
+                    except _Rs as e_:
+                        results[line] = ("raises %s" % e_.name, want)
+                first_gap = ' FCC "A  B"'
+                bad = [(ln, g_, w_) for ln, (g_, w_) in results.items() if g_ != w_ and ln != first_gap]
                 if bad:
-                    c.finding("parse_line:FCC:slice", "operand field %r gives the string %r" % (bad[0], bad[1]),
-                              "for the operand field %r the FCC branch hands %r to the operand classes; the delimited string is %r" % bad, repo.loc(pl, cfs[0]))
+                    c.finding("parse_line:FCC:slice", "line %r gives the string %r" % (bad[0][0].strip(), bad[0][1]),
+                              "for the source line %r the FCC branch hands %r to the operand classes; the delimited string written in the source is %r" % (bad[0][0].strip(), bad[0][1], bad[0][2]),
+                              repo.loc(pl, cfs[0]))
                 else:
-                    c.ok("parse_line:FCC:slice", "the delimited string, delimiters included, nothing after it", repo.loc(pl, cfs[0]))
+                    c.ok("parse_line:FCC:slice", "the delimited string as written (white space after the first gap kept), nothing after it", repo.loc(pl, cfs[0]))
             except _NC as e:
-                c.undecided("parse_line:FCC:slice", "slice-not-foldable", str(e)[:80], repo.loc(pl, cfs[0]))
-        if "'{} {}'.format(data.group('operands'), data.group('comment').strip())" in t:
+                c.undecided("parse_line:FCC:slice", "branch-not-foldable", str(e)[:80], repo.loc(pl, cfs[0]))
+        fg = results.get(' FCC "A  B"')
+        if (fg is not None and fg[0] != fg[1]) or (fg is None and "'{} {}'.format(data.group('operands'), data.group('comment').strip())" in t):
             c.finding("parse_line:FCC:reassembly", "string rebuilt from the operands and comment groups with a single space",
                       "the FCC operand is reconstructed as operands + ' ' + comment: the line pattern splits at the first white space or ';', so runs of spaces collapse "
                       "(FCC \"A  B\" emits 3 bytes) and ';' inside the string becomes a space (FCC \"A;B\")", repo.loc(pl, fcc))
